@@ -219,3 +219,30 @@ CHECKS["C15"] = {
     "outside": ["header/body text keys (FROM, SUBJECT, BODY, TEXT, HEADER) and charset decoding", "SENT* keys", "ON / SINCE (calendar arithmetic through time.Date)", "the parallel branch"],
     "assumptions": ["view UIDs strictly ascending and non-zero"],
 }
+
+C10_FILES = ["zz_verif_c10.go", "zz_verif_reader.go"]
+
+CHECKS["C10"] = {
+    "explanation": "The harness is a printer: it builds the byte string of a command from an abstract command whose leaves are symbolic (tag bytes, letter case of every keyword character, each string argument in atom / quoted / literal encoding with symbolic payload bytes, digit strings, sequence sets, optional short reads), feeds it through command.Parser.Parse (real go/ssa of imap/command and rfcparser) and compares the result with the abstract command.",
+    "harnesses": [
+        {"name": "strings", "pkg": "imap/command", "pkgname": "command", "entry": "VerifC10Strings", "files": C10_FILES,
+         "params": {"quick": grid(len=[1, 2], chunked=[0]) + grid(len=[2], chunked=[1]), "thorough": grid(len=[1, 2, 3, 5], chunked=[0, 1])},
+         "summarise": SCAN_SUMMARISE, "cover": []},
+    ],
+    "stubs": ["rfcparser.Reader -> fixed buffer, optional symbolic short reads"],
+    "outside": ["bufio.Reader between socket and scanner", "string payloads longer than the bound", "numbers beyond 32 bits (C16)", "atoms containing '[' and empty literals ({0}), which the server's grammar subset does not accept"],
+    "assumptions": ["commands are generated from the RFC 3501/4315/6851/2971 grammar restricted to what command.NewParser registers"],
+}
+
+CHECKS["C04"] = {
+    "explanation": "Inductive step of imap.EpochUIDValidityGenerator.Generate through its real go/ssa: the generator state (last value) and the clock are symbolic; on success the result is strictly greater than the last value and becomes the new state, on error the state is unchanged - by induction over calls every value exceeds all earlier ones.  Plus IncrementalUIDValidityGenerator and UID.Add.  (The view-level half - snapMsgList.insert rejects non-increasing UIDs and sequence order = UID order - is decided by the C01 probe obligations.)",
+    "harnesses": [
+        {"name": "generator", "pkg": "imap", "pkgname": "imap", "entry": "VerifC04Generator", "files": ["zz_verif_c04.go"],
+         "params": {"quick": grid(gap=[3]), "thorough": grid(gap=[8])}, "cover": ["generator-ok", "generator-error"], "max_sym_loop": 32},
+        {"name": "incremental", "pkg": "imap", "pkgname": "imap", "entry": "VerifC04Incremental", "files": ["zz_verif_c04.go"],
+         "params": {"quick": [{}], "thorough": [{}]}, "cover": []},
+    ],
+    "stubs": ["time.Now -> symbolic instant 1970..2255, monotone", "sync/atomic -> plain accesses (single goroutine)", "Time.Sub / Duration.Seconds -> whole seconds, no overflow within the clock bounds"],
+    "outside": ["UID allocation itself (SQLite AUTOINCREMENT; the relational stub models it, the engine cannot encode SQLite)", "restarts", "the CAS loop under real concurrency", "catch-up gaps larger than the bound"],
+    "assumptions": ["lastUID - seconds since epoch <= gap (loop bound, checked by the engine's loop-unwinding limit)"],
+}
